@@ -92,6 +92,10 @@ type Parser struct {
 	dcsInter  []byte
 	dcsParams []byte
 	dcsFinal  byte
+	// Sink, when set, receives items as they complete instead of Feed
+	// returning them.
+	Sink      func(Item)
+	capture   bool
 	lastESC   bool  // the most recent byte was ESC
 	strBytes  int   // bytes consumed by the current control-string state
 	heldEmpty bool  // the held string consumed no byte in its string state
@@ -137,6 +141,13 @@ func (p *Parser) Feed(b []byte) []Item {
 		}
 		buf = buf[n:]
 	}
+	if p.Sink != nil {
+		for _, it := range p.out {
+			p.Sink(it)
+		}
+		p.out = p.out[:0]
+		return nil
+	}
 	return append([]Item(nil), p.out...)
 }
 
@@ -170,6 +181,14 @@ func (p *Parser) Timeout() []Item {
 
 func (p *Parser) emit(it Item) {
 	it.End = p.off
+	if p.Sink != nil && !p.capture {
+		for _, o := range p.out {
+			p.Sink(o)
+		}
+		p.out = p.out[:0]
+		p.Sink(it)
+		return
+	}
 	p.out = append(p.out, it)
 }
 
@@ -374,7 +393,9 @@ func (p *Parser) taint(at int) {
 func (p *Parser) endStringPendingST() {
 	// the item is produced now (so offsets are right) and parked
 	n := len(p.out)
+	p.capture = true
 	p.endString(false)
+	p.capture = false
 	if len(p.out) > n {
 		it := p.out[n]
 		p.out = p.out[:n]
